@@ -34,7 +34,7 @@ CHECKS = {
         design_ref='6/C18'),
     'C12': dict(
         engine='ServerStop',
-        technique='TLA+ spec ServerStop.tla (parent-side terminate(timeout=5, force) with its join time-out, the SIGTERM handler that kills `children` but not the contexts, the `finally` loop with its 1 s waits and forced kills, the context helper\'s own clean-up racing with the server\'s 1 s join, a worker start-up in progress) model-checked with TLC over every configuration of 0-4 children in 8 states x {terminate, SIGTERM} x 4 start-up phases; TLC-enumerated configurations are built on a real server and stopped; /proc is scanned for former descendants (found by an environment tag, so re-parented orphans count) and the parent-side accessors are read with hang bounds; TLC judges every real execution (ServerJudge) and the real outcome is compared with the model outcome',
+        technique='TLA+ spec ServerStop.tla (parent-side terminate(timeout=5, force) with its join time-out, the SIGTERM handler that kills `children` but not the contexts, the `finally` loop with its 1 s waits and forced kills, the context helper\'s own clean-up racing with the server\'s 1 s join, a worker start-up in progress) model-checked with TLC over every configuration of 0-4 children in 8 states x {terminate, SIGTERM, terminate with a short time-out whose SIGTERM lands inside the finally loop} x 4 start-up phases; TLC-enumerated configurations are built on a real server and stopped; /proc is scanned for former descendants (found by an environment tag, so re-parented orphans count) and the parent-side accessors are read with hang bounds; TLC judges every real execution (ServerJudge) and the real outcome is compared with the model outcome',
         text='Exhaustive TLC model checking (invariants Reaped / ParentsKnow / ErrorKind / NoParentBlock at every terminal state over all 75k configurations and all interleavings of time-outs, kills and clean-ups; liveness Reaped for <= 3 children) of the proposed algorithm; the algorithm as written is rejected (a context helper killed in the middle of its clean-up). 26 (300) configurations chosen from TLC\'s enumeration for balanced coverage are built on real servers, stopped with terminate() or SIGTERM (also while a scripted client is in the middle of the handshake), and observed: server gone, no former descendant left 3 s later, wait()/is_alive()/has_error/error of every parent-side worker with hang bounds.',
         note='Trusted: TLC, /proc, the time abstraction of the model (a cooperative process that got the termination request exits before a 1 s time-out fires; the parent\'s 5 s join expires after 4 waited-out processes). The parent side of a start-up that races with the stop belongs to C20: the racing worker is a scripted client and only its reaping is judged. Real configurations are a selected sample of the enumerated space.',
         design_ref='6/C12'),
@@ -45,8 +45,9 @@ MODEL_REQ = {'pworker': 'worker'}
 
 # ----------------------------------------------------------------------------- TLC helpers
 
-def _cfg(nf, fixes, plans='Plans_all', late='FALSE', inv=(), prop=None, step='FALSE'):
-    s = 'SPECIFICATION Spec\nCONSTANTS\n  NF = %d\n  Fixes <- %s\n  PlanSet <- %s\n  LateAfter = %s\n  StepSend = %s\n' % (nf, fixes, plans, late, step)
+def _cfg(nf, fixes, plans='Plans_all', late='FALSE', inv=(), prop=None, step='FALSE', leakpop='FALSE'):
+    s = ('SPECIFICATION Spec\nCONSTANTS\n  NF = %d\n  Fixes <- %s\n  PlanSet <- %s\n  LateAfter = %s\n  StepSend = %s\n  LeakPop = %s\n'
+         % (nf, fixes, plans, late, step, leakpop))
     for i in inv:
         s += 'INVARIANT %s\n' % i
     if prop:
@@ -173,7 +174,8 @@ def c11_singles(plans, lens, tier):
     """Expand TLC's single-fault plans to concrete replay faults."""
     out = []
     for req, step, mode in plans:
-        types = ['worker', 'pworker'] if req == 'worker' else [req]
+        # the server cannot tell a persistent worker from a one-shot one before the backend runs
+        types = ['worker', 'pworker'] if req == 'worker' and (step in ('connect', 'pay', 'addr', 'ctrl', 'run') or tier == 'thorough') else [req]
         for t in types:
             hdr, pay = lens[t]
             if step in ('connect', 'midhdr', 'hdr', 'midpay', 'pay'):
@@ -184,6 +186,8 @@ def c11_singles(plans, lens, tier):
                     out.append([dict(req=t, step=step, cut=cut, mode=mode, split=False)])
             else:
                 out.append([dict(req=t, step=step, cut=hdr + pay, mode=mode, split=False)])
+                if step == 'reply':
+                    continue
                 if step == 'ctrl' or (step == 'run' and tier == 'thorough'):
                     out.append([dict(req=t, step=step, cut=hdr + pay, mode=mode, split=True)])
     return out
@@ -251,6 +255,8 @@ def run_c11(tier, replay):
                                              must_complete=False, timeout=600) for w in wit})
     design.start('rejs', lambda: {fx: tlc.run('ServerMC', cfg_text=_cfg(1, fx, inv=invs, prop='Live_Serves'), workers=1,
                                               name='rej' + fx, must_complete=False, timeout=600) for fx in fixsets})
+    design.start('leakpop', lambda: tlc.run('ServerMC', cfg_text=_cfg(1, 'Fix_all', inv=invs, prop='Live_Serves', leakpop='TRUE'), workers=1,
+                                            name='rejleakpop', must_complete=False, timeout=600))
 
     # 1. TLC enumerates the fault placements (path dumps = relation Allowed: scenario -> outcomes),
     #    for the algorithm as proposed (all fixes) and as written (no fix); the tap records the streams
@@ -289,7 +295,7 @@ def run_c11(tier, replay):
             box['recs'] += R.pool_map('scenario_c11', mk_tasks(box['seqs'](), len(scen)), logdir, nproc=12)
         except BaseException as e:  # noqa
             box['err'] = e
-    nseq = 16 if tier == 'quick' else 160
+    nseq = 12 if tier == 'quick' else 160
     ready = threading.Event()
 
     def seqs():
@@ -344,6 +350,9 @@ def run_c11(tier, replay):
         rejected[fx] = rp.error
         if fx == 'Fix_none':
             cex = [l for l in rp.trace if l.startswith(('State', '/\\ spc', '/\\ cpc', '/\\ dopen'))][:40]
+    if dres['leakpop'].error != 'invariant:Inv_Others':
+        raise MachineryError('the mutant algorithm LeakPop is not rejected by the model checker (%s)' % dres['leakpop'].error)
+    rejected['LeakPop (mutant: pops the entry of a REFUSED duplicate when its reply cannot be sent)'] = dres['leakpop'].error
     ev.cov['prefix_models_rejected'] = rejected
     # reduction check: with the client's writes arriving piecewise (unreduced) the scenario -> outcome relation is the same
     for fx in ('Fix_all', 'Fix_none'):
@@ -428,6 +437,7 @@ def run_c11(tier, replay):
         ev.sample({'tlc_counterexample_of_the_algorithm_as_written': cex})
     ev.assumptions += ['client writes are atomic up to the client\'s next read (TCP buffers them); payloads are opaque to the model',
                        'FIN = close() of a socket without unread data, RST = SO_LINGER 0 + close(); loopback only',
+                       'the healthy party of every scenario: a persistent worker, a one-shot worker in the middle of its target, and a context (the one faulty worker-in-context and duplicate-create requests name) with a worker in it; afterwards each must answer with its own work and a NEW worker in that context must be accepted',
                        'time-outs in the proposed algorithm only fire for clients that are gone (a well-behaved client connects the control channel in time)',
                        'sequences of >= 2 faulty clients are sampled (seeded), not exhaustive; model NF<=2 exhaustive (NF=3 core plans in the thorough tier)',
                        'a rejected execution whose signature is not a listed finding is re-run alone twice and reported only if TLC rejects a re-run too (hang bounds are wall-clock: 12 parallel replays + TLC can exceed them on a loaded machine)']
@@ -718,9 +728,9 @@ def run_c18(tier, replay):
 
 # ----------------------------------------------------------------------------- C12
 
-def _stop_cfg(maxkids, racers='Racers_all', ctxterm='TRUE', inv=(), prop=None, dupterm=None, pkill=None):
-    s = ('SPECIFICATION Spec\nCONSTANTS\n  MaxKids = %d\n  KidStates <- States_all\n  Racers <- %s\n  CtxTerm = %s\n  DupTerm = %s\n  ParentKill = %s\n'
-         % (maxkids, racers, ctxterm, dupterm or ctxterm, pkill or dupterm or ctxterm))
+def _stop_cfg(maxkids, racers='Racers_all', ctxterm='TRUE', inv=(), prop=None, dupterm=None, pkill=None, clearfirst='FALSE'):
+    s = ('SPECIFICATION Spec\nCONSTANTS\n  MaxKids = %d\n  KidStates <- States_all\n  Racers <- %s\n  CtxTerm = %s\n  DupTerm = %s\n  ParentKill = %s\n  ClearFirst = %s\n'
+         % (maxkids, racers, ctxterm, dupterm or ctxterm, pkill or dupterm or ctxterm, clearfirst))
     for i in inv:
         s += 'INVARIANT %s\n' % i
     if prop:
@@ -769,6 +779,10 @@ def c12_select(confs, k, rng):
             f.add(('ctx-swallow+racer', racer))
         if 'orphan' in kids:
             f.add(('orphan+racer', racer, how))
+        if how == 'tshort' and 'swallow' in kids and 'coop' in kids and 'idle' in kids:
+            f.add('tshort-mix')
+        if how == 'tshort' and kids and kids[0] == 'swallow' and len(kids) >= 2:
+            f.add('tshort-swallow-first')
         return f
     count = collections.Counter()
     fs = [feats(c) for c in pool]
@@ -786,14 +800,15 @@ def c12_select(confs, k, rng):
         count.update(fs[best])
     # the fault classes the model singles out (a helper killed during its clean-up; an exit blocked by an
     # orphan helper after the one SIGTERM was used up) are always exercised
-    for must in (('inctx-swallow', 'terminate'), ('orphan+racer', 'addr', 'terminate'), ('two-swallow-in-ctx', 'terminate')):
-        if not count[must]:
-            for i, f in enumerate(fs):
-                if must in f and i not in used:
-                    used.add(i)
-                    chosen.append(pool[i])
-                    count.update(f)
-                    break
+    for must, times in ((('inctx-swallow', 'terminate'), 1), (('orphan+racer', 'addr', 'terminate'), 1), (('two-swallow-in-ctx', 'terminate'), 1),
+                        ('tshort-mix', 2), ('tshort-swallow-first', 2), (('swallow', 'tshort'), 3)):
+        for i, f in enumerate(fs):
+            if count[must] >= times:
+                break
+            if must in f and i not in used:
+                used.add(i)
+                chosen.append(pool[i])
+                count.update(f)
     return chosen
 
 
@@ -835,7 +850,7 @@ def run_c12(tier, replay):
 
     # 0. the design (concurrently): exhaustive invariants for 0..4 children, liveness for 0..3, witnesses,
     #    rejection of the algorithm as written
-    wit = ['W_NoKillHelper', 'W_NoJoinTimeout', 'W_NoHalfStarted', 'W_NoGracefulCtx', 'W_NoForced', 'W_NoExitHang', 'W_NoSignalUsedUp']
+    wit = ['W_NoKillHelper', 'W_NoJoinTimeout', 'W_NoHalfStarted', 'W_NoGracefulCtx', 'W_NoForced', 'W_NoExitHang', 'W_NoSignalUsedUp', 'W_NoHandlerInLoop']
     design = Jobs()
     design.start('mc', lambda: tlc.run('ServerStopMC', 'ServerStop_mc.cfg', workers=8, name='stopmc', timeout=3000))
     design.start('live', lambda: tlc.run('ServerStopMC', 'ServerStop_live.cfg', workers=4, name='stoplive', timeout=3000))
@@ -844,6 +859,8 @@ def run_c12(tier, replay):
     design.start('prefix', lambda: {v: tlc.run('ServerStopMC', cfg_text=_stop_cfg(2, 'Racers_all', v[0], inv=C12_INV, prop='Live_Reaped', dupterm=v[1], pkill=v[2]),
                                                workers=1, name='stopprefix%s%s%s' % v, must_complete=False, timeout=600)
                                     for v in (('FALSE', 'FALSE', 'FALSE'), ('FALSE', 'TRUE', 'TRUE'), ('TRUE', 'FALSE', 'FALSE'))})
+    design.start('clearfirst', lambda: tlc.run('ServerStopMC', cfg_text=_stop_cfg(2, 'Racers_all', 'TRUE', inv=C12_INV, prop='Live_Reaped', clearfirst='TRUE'),
+                                               workers=1, name='stopclearfirst', must_complete=False, timeout=600))
 
     # 1. TLC enumerates configurations and their outcomes (proposed algorithm and algorithm as written)
     jobs = Jobs()
@@ -897,6 +914,9 @@ def run_c12(tier, replay):
         if not (rp_.error or '').startswith(('invariant:', 'temporal')):
             raise MachineryError('the algorithm with CtxTerm=%s DupTerm=%s ParentKill=%s is not rejected by the model checker (%s)' % (v[0], v[1], v[2], rp_.error))
         ev.cov['prefix_models_rejected']['CtxTerm=%s,DupTerm=%s,ParentKill=%s' % v] = rp_.error
+    if not (dres['clearfirst'].error or '').startswith(('invariant:', 'temporal')):
+        raise MachineryError('the mutant algorithm ClearFirst (finally clears `children` before reaping) is not rejected by the model checker')
+    ev.cov['prefix_models_rejected']['ClearFirst=TRUE (mutant)'] = dres['clearfirst'].error
     rp = dres['prefix'][('FALSE', 'FALSE', 'FALSE')]
 
     # 3. TLC judges every real execution with the C12 operators
